@@ -1,7 +1,6 @@
 package c14
 
 import (
-	"crypto/sha256"
 	"fmt"
 	"math"
 	"math/rand"
@@ -22,6 +21,15 @@ type BlockSpec struct {
 	Big     int    `json:"big_tx_bytes,omitempty"` // one additional transaction of this size (payload size classes around 64 KiB .. 3 MiB)
 	NilMeta bool   `json:"nil_metadata,omitempty"`
 	SigMode int    `json:"sig_mode"` // 0: the header's own signature, 1: another 64-byte signature, 2: empty
+	// BadDataHash: the header's DataHash is random instead of the commitment of the data saved with it
+	BadDataHash bool `json:"bad_data_hash,omitempty"`
+}
+
+// regular reports whether a block built from the spec is one no store could reasonably refuse:
+// positive height, data with metadata that matches the header, DataHash = commitment of the data,
+// the header's own signature handed to SaveBlockData.
+func (sp BlockSpec) regular() bool {
+	return sp.Height > 0 && !sp.NilMeta && sp.SigMode == 0 && !sp.BadDataHash
 }
 
 // Op is one store call.
@@ -30,8 +38,9 @@ type Op struct {
 	H   uint64 `json:"h,omitempty"`   // height argument
 	Blk int    `json:"blk,omitempty"` // pool index (save ops; by-hash reads: whose hash; -1: a hash never saved)
 	Key string `json:"key,omitempty"` // metadata key
-	Val []byte `json:"val,omitempty"` // metadata value
-	St  int64  `json:"st,omitempty"`  // state salt
+	Val []byte `json:"val,omitempty"` // metadata value (small values)
+	St  int64  `json:"st,omitempty"`  // state salt; salt of a large metadata value
+	Big int    `json:"big,omitempty"` // setmeta: the value is Big pseudo-random bytes derived from St; state: AppHash of that size
 	Dat int    `json:"dat,omitempty"` // save_same: pool index whose data / signature is stored with the same header
 }
 
@@ -55,6 +64,9 @@ func metaKeys(heights []uint64) []string {
 	return keys
 }
 
+// bigValueSizes are the size classes of large state / metadata values (and of large block payloads).
+var bigValueSizes = []int{60 << 10, 70 << 10, 256<<10 - 200, 256<<10 + 1, 300 << 10, 1 << 20, 1<<20 + 4096, 3 << 20}
+
 var writeKinds = map[string]bool{"save_new": true, "save_same": true, "save_diff": true, "setheight": true, "state": true, "setmeta": true}
 
 func genSequence(rng *rand.Rand, id int, badger bool) Sequence {
@@ -77,10 +89,10 @@ func genSequence(rng *rand.Rand, id int, badger bool) Sequence {
 	curHeight := uint64(0)
 	hasState, hasMeta := false, map[string]bool{}
 	newSpec := func(h uint64) int {
-		sp := BlockSpec{Height: h, Salt: rng.Int63(), NTx: []int{0, 0, 1, 2, 3, 5}[rng.Intn(6)], NilMeta: rng.Intn(10) == 0, SigMode: []int{0, 0, 0, 0, 1, 1, 2}[rng.Intn(7)]}
+		sp := BlockSpec{Height: h, Salt: rng.Int63(), NTx: []int{0, 0, 1, 2, 3, 5}[rng.Intn(6)], NilMeta: rng.Intn(10) == 0, SigMode: []int{0, 0, 0, 0, 0, 0, 1, 1, 2}[rng.Intn(9)], BadDataHash: rng.Intn(8) == 0}
 		if rng.Intn(25) == 0 {
 			// a large payload: any size-dependent write path (separate puts, chunking, value-log thresholds) is on it
-			sp.Big = []int{60 << 10, 70 << 10, 256<<10 - 200, 256<<10 + 1, 300 << 10, 1 << 20, 1<<20 + 4096, 3 << 20}[rng.Intn(8)]
+			sp.Big = bigValueSizes[rng.Intn(len(bigValueSizes))]
 		}
 		s.Pool = append(s.Pool, sp)
 		return len(s.Pool) - 1
@@ -141,13 +153,23 @@ func genSequence(rng *rand.Rand, id int, badger bool) Sequence {
 				curHeight = h
 			}
 		case p < 42:
-			s.Ops = append(s.Ops, Op{K: "state", St: rng.Int63()})
+			op := Op{K: "state", St: rng.Int63()}
+			if rng.Intn(12) == 0 {
+				op.Big = bigValueSizes[rng.Intn(len(bigValueSizes))]
+			}
+			s.Ops = append(s.Ops, op)
 			hasState = true
 		case p < 52:
 			key := mkeys[rng.Intn(len(mkeys))]
-			val := make([]byte, []int{0, 1, 8, 8, 8, 33, 200}[rng.Intn(7)])
-			rng.Read(val)
-			s.Ops = append(s.Ops, Op{K: "setmeta", Key: key, Val: val})
+			op := Op{K: "setmeta", Key: key}
+			if rng.Intn(16) == 0 {
+				// the node keeps whole batch-data lists under "l": values of the size classes of block data
+				op.St, op.Big = rng.Int63(), bigValueSizes[rng.Intn(len(bigValueSizes))]
+			} else {
+				op.Val = make([]byte, []int{0, 1, 8, 8, 8, 33, 200}[rng.Intn(7)])
+				rng.Read(op.Val)
+			}
+			s.Ops = append(s.Ops, op)
 			hasMeta[key] = true
 		case p < 60:
 			s.Ops = append(s.Ops, Op{K: "getblock", H: pickHeight()})
@@ -214,7 +236,7 @@ func (s Sequence) sample() any {
 		case "setheight", "getblock", "getheader", "getsig":
 			ops = append(ops, fmt.Sprintf("%s(%d)", o.K, o.H))
 		case "setmeta":
-			ops = append(ops, fmt.Sprintf("setmeta(%s,%dB)", o.Key, len(o.Val)))
+			ops = append(ops, fmt.Sprintf("setmeta(%s,%dB)", o.Key, len(o.Val)+o.Big))
 		case "getmeta":
 			ops = append(ops, fmt.Sprintf("getmeta(%s)", o.Key))
 		case "getbyhash", "getsigbyhash":
@@ -236,6 +258,44 @@ type Blk struct {
 	HdrBin []byte
 	DatBin []byte
 	Hash   []byte
+	Spec   BlockSpec
+}
+
+// Mat holds what a sequence's operations refer to: the materialised pool blocks and the large
+// metadata / state values (built once per sequence, the crash enumeration replays it many times).
+type Mat struct {
+	Pool []*Blk
+	big  map[[2]int64][]byte
+}
+
+func (mt *Mat) bigBytes(salt int64, n int) []byte {
+	k := [2]int64{salt, int64(n)}
+	if v, ok := mt.big[k]; ok {
+		return v
+	}
+	if mt.big == nil {
+		mt.big = map[[2]int64][]byte{}
+	}
+	v := rbytes(rand.New(rand.NewSource(salt^0x5eed)), n)
+	mt.big[k] = v
+	return v
+}
+
+// metaVal is the value a setmeta operation writes.
+func (mt *Mat) metaVal(op Op) []byte {
+	if op.Big > 0 {
+		return mt.bigBytes(op.St, op.Big)
+	}
+	return op.Val
+}
+
+// state is the state a state operation writes.
+func (mt *Mat) state(op Op) types.State {
+	st := mkState(op.St)
+	if op.Big > 0 {
+		st.AppHash = mt.bigBytes(op.St, op.Big)
+	}
+	return st
 }
 
 const chainID = "c14-chain"
@@ -248,7 +308,8 @@ func rbytes(rng *rand.Rand, n int) []byte {
 	return b
 }
 
-// materialise builds the block of a spec: a header signed with the harness's proposer key.
+// materialise builds the block of a spec: a header signed with the harness's proposer key over
+// data it commits to (unless the spec says otherwise).
 func materialise(sp BlockSpec) (*Blk, error) {
 	rng := rand.New(rand.NewSource(sp.Salt))
 	signer, err := types.NewSigner(proposer.Pub)
@@ -267,15 +328,6 @@ func materialise(sp BlockSpec) (*Blk, error) {
 		ValidatorHash:   signer.Address,
 		ProposerAddress: signer.Address,
 	}
-	payload, err := h.MarshalBinary()
-	if err != nil {
-		return nil, err
-	}
-	sig, err := proposer.Signer.Sign(payload)
-	if err != nil {
-		return nil, err
-	}
-	sh := &types.SignedHeader{Header: h, Signature: sig, Signer: signer}
 	d := &types.Data{}
 	if !sp.NilMeta {
 		d.Metadata = &types.Metadata{ChainID: chainID, Height: sp.Height, Time: h.BaseHeader.Time, LastDataHash: rbytes(rng, 32)}
@@ -286,7 +338,20 @@ func materialise(sp BlockSpec) (*Blk, error) {
 	if sp.Big > 0 {
 		d.Txs = append(d.Txs, rbytes(rng, sp.Big))
 	}
-	b := &Blk{Header: sh, Data: d}
+	if !sp.BadDataHash {
+		// what the node puts there (block/manager.go: header.DataHash = blockData.DACommitment())
+		h.DataHash = (&types.Data{Txs: d.Txs}).DACommitment()
+	}
+	payload, err := h.MarshalBinary()
+	if err != nil {
+		return nil, err
+	}
+	sig, err := proposer.Signer.Sign(payload)
+	if err != nil {
+		return nil, err
+	}
+	sh := &types.SignedHeader{Header: h, Signature: sig, Signer: signer}
+	b := &Blk{Header: sh, Data: d, Spec: sp}
 	switch sp.SigMode {
 	case 0:
 		b.Sig = append(types.Signature{}, sig...)
@@ -301,8 +366,8 @@ func materialise(sp BlockSpec) (*Blk, error) {
 	if b.DatBin, err = d.MarshalBinary(); err != nil {
 		return nil, err
 	}
-	hh := sha256.Sum256(payload)
-	b.Hash = hh[:]
+	// the hash under which the block is looked up is the one the header type itself reports
+	b.Hash = append([]byte{}, sh.Hash()...)
 	return b, nil
 }
 
@@ -310,7 +375,7 @@ func mkState(salt int64) types.State {
 	rng := rand.New(rand.NewSource(salt))
 	st := types.State{
 		Version:         types.Version{Block: uint64(rng.Intn(20)), App: uint64(rng.Intn(5))},
-		ChainID:         []string{chainID, "", "other-chain"}[rng.Intn(3)],
+		ChainID:         []string{chainID, chainID, "", "other-chain"}[rng.Intn(4)],
 		InitialHeight:   uint64(rng.Intn(5)),
 		LastBlockHeight: heightClasses[rng.Intn(len(heightClasses))],
 		LastBlockTime:   time.Unix(1_700_000_000+rng.Int63n(1_000_000), rng.Int63n(1_000_000_000)).UTC(),
